@@ -45,7 +45,7 @@ def _ref(scn, layer="L2"):
     key = jhash({"scn": scn, "layer": layer})
     out = os.path.join(d, key + ".json")
     if not os.path.exists(out):
-        inp = os.path.join(d, key + ".in.json")
+        inp = os.path.join(d, f"{key}.{os.getpid()}.in.json")  # per process: shards needing the same reference must not share it
         with open(inp, "w") as f:
             json.dump(scn, f)
         tmp = out + f".{os.getpid()}.tmp"
